@@ -151,6 +151,15 @@ def run_component(prop, tier, replay, C):
         ex.shutdown()
     if not cov["samples"]:
         cov["samples"] = [{"note": "replay"}]
+    if prop == "C17" and not replay and not broken:
+        # cache level: the read buffer is drained only by the holder of the eviction mutex; InvalidateAll and maintenance
+        # running side by side while reads are recorded must leave nothing behind
+        import wrcheck
+        wcov, wviol, wbroken = wrcheck.run("C17", tier, None, collect_only=True)
+        cov["cache_level_read_buffer_audits"] = wcov["traces_validated_against_impl"]
+        cov["traces_validated_against_impl"] += wcov["traces_validated_against_impl"]
+        broken += wbroken
+        violations += wviol
     if prop == "C16" and not replay and not broken:
         # cache level: when the write buffer is full the writer runs maintenance itself and its own event must still reach
         # the policies (afterWriteTask); small buffer + foreign mutex holder, audited by WRAudit.tla
